@@ -332,6 +332,16 @@ def geom2(rng, malformed=False):
     return (H, kh, sh, ph, dh), (W, kw, sw, pw, dw)
 
 
+def far_out(rng, data):
+    """with WIDE_LEVELS: some entries replaced by magnitudes at which a naive exp / log formula overflows in binary64 too"""
+    if WIDE_LEVELS and data and rng.chance(.45):
+        data = list(data)
+        pos = rng.sample(range(len(data)), min(len(data), rng.randint(1, 3)))
+        for k, i in enumerate(pos):       # the first replaced entry is far on the negative side, the second far on the positive side
+            data[i] = rng.pick([-800.0, -745.5, -711.0]) if k == 0 else rng.pick([800.0, 710.0]) if k == 1 else rng.pick([-100.0, 100.0, -40.0])
+    return data
+
+
 def gen_nn(rng, op, malformed=False):
     L = lambda sh, data=None, rg=True: (sh, data if data is not None else vals(rng, sh), rg)
     if op in ('relu', 'selu'):
@@ -339,7 +349,7 @@ def gen_nn(rng, op, malformed=False):
     if op == 'leaky_relu':
         s = rshape(rng); return [L(s, nonkink(rng, s))], [fbits(rng.pick([0.01, 0.2, 0.0, 1.5, -0.5]))]
     if op in ('tanh', 'sigmoid'):
-        return [L(rshape(rng))], []
+        s = rshape(rng); return [L(s, far_out(rng, vals(rng, s)))], []
     if op in ('softmax', 'log_softmax'):
         if rng.chance(.3 if malformed else .2):
             # 0-d operand: the kernels reduce with `a.max(axis, keepdims=True)` / `.sum(axis, keepdims=True)`, and NumPy's reductions accept
@@ -348,7 +358,7 @@ def gen_nn(rng, op, malformed=False):
         s = rshape(rng, 1, 4)
         d = rng.randrange(-len(s), len(s))
         if malformed: d = len(s)
-        return [L(s)], [d]
+        return [L(s, far_out(rng, vals(rng, s)))], [d]
     if op == 'mse_loss':
         s = rshape(rng)
         t = s if not malformed else s + (2,)
@@ -363,7 +373,7 @@ def gen_nn(rng, op, malformed=False):
         return [L(s, vals(rng, s, 'prob')), L(s, [float(rng.randint(0, 1)) if rng.chance(.7) else round(rng.random(), 2) for _ in range(int(np.prod(s)))], False)], []
     if op == 'binary_cross_entropy_with_logits':
         s = rshape(rng, 1, 2)
-        return [L(s), L(s, [float(rng.randint(0, 1)) for _ in range(int(np.prod(s)))], False)], []
+        return [L(s, far_out(rng, vals(rng, s))), L(s, [float(rng.randint(0, 1)) for _ in range(int(np.prod(s)))], False)], []
     if op == 'linear':
         n, i, o = rng.randint(1, 3), rng.randint(1, 4), rng.randint(1, 3)
         bias = rng.chance(.6)
@@ -394,15 +404,26 @@ def gen_nn(rng, op, malformed=False):
         while True:
             Ln, k, s, p, d = geom1(rng, malformed)
             if malformed or p <= k // 2: break
+        if not malformed and rng.chance(.2):
+            # the textbook configuration — stride = kernel, no padding — with a DILATED kernel: the windows tile nothing
+            k, d = rng.randint(2, 3), rng.randint(2, 3); s, p = k, 0
+            Ln = d * (k - 1) + 1 + s * rng.randint(0, 2) + rng.randint(0, 1)
         sh = (n, c, Ln)
-        return [L(sh, vals(rng, sh, 'distinct') if op.startswith('max') else None)], [k, s, p, d]
+        data = vals(rng, sh, rng.pick(['distinct', 'distinct', 'ties'])) if op.startswith('max') else None
+        return [L(sh, data)], [k, s, p, d]
     if op in ('max_pool2d', 'avg_pool2d'):
         n, c = rng.randint(1, 2), rng.randint(1, 2)
         while True:
             (H, kh, sh_, ph, dh), (W, kw, sw, pw, dw) = geom2(rng, malformed)
             if malformed or (ph <= kh // 2 and pw <= kw // 2): break
+        if not malformed and rng.chance(.2):
+            # stride = kernel, no padding, dilated kernel on at least one axis
+            kh, kw = rng.randint(1, 3), rng.randint(1, 3); sh_, sw, ph, pw = kh, kw, 0, 0
+            dh, dw = rng.pick([(2, 1), (1, 2), (2, 2), (3, 2)])
+            H = dh * (kh - 1) + 1 + sh_ * rng.randint(0, 2) + rng.randint(0, 1); W = dw * (kw - 1) + 1 + sw * rng.randint(0, 2) + rng.randint(0, 1)
         s4 = (n, c, H, W)
-        return [L(s4, vals(rng, s4, 'distinct') if op.startswith('max') else None)], [show_ints((kh, kw)), show_ints((sh_, sw)), show_ints((ph, pw)), show_ints((dh, dw))]
+        data = vals(rng, s4, rng.pick(['distinct', 'distinct', 'ties'])) if op.startswith('max') else None
+        return [L(s4, data)], [show_ints((kh, kw)), show_ints((sh_, sw)), show_ints((ph, pw)), show_ints((dh, dw))]
     if op == 'unfold':
         n, c = rng.randint(1, 2), rng.randint(1, 2)
         (H, kh, sh_, ph, dh), (W, kw, sw, pw, dw) = geom2(rng, malformed)
